@@ -77,6 +77,10 @@ def run_case(case):
             en_sig = group_enable_sig(desc, desc['nodes'][k]['g'])
             if pre[en_sig] is None:
                 continue
+            if desc['nodes'][k]['op'] != 'Reg':
+                if pre[en_sig] != 0 and ref[t]['n%d' % k] != regs[k]:
+                    advanced = True
+                continue
             nxt = ungated_next(desc, pre, k, regs[k])
             if pre[en_sig] == 0 and nxt is not None and nxt != regs[k]:
                 held_observable = True
@@ -116,10 +120,10 @@ def run_case(case):
 
 @st.composite
 def cases(draw, max_nodes, n_cycles):
-    desc = draw(netlists(max_nodes=max_nodes, min_nodes=2, n_regs=(2, 6), hierarchy=3, domains=True, max_w=16,
+    desc = draw(netlists(max_nodes=max_nodes, min_nodes=2, n_regs=(2, 6), n_mems=(0, 1), hierarchy=3, domains=True, max_w=16,
                          widths=[1, 1, 2, 4, 8],
                          ops=['And2', 'Or2', 'Xor2', 'Not', 'Add', 'Sub', 'Mux2', 'Constant', 'Range', 'Bit', 'ZeroExtend', 'Buf', 'Equal']))
-    regs = [k for k, nd in enumerate(desc['nodes']) if is_state(nd)]
+    regs = [k for k, nd in enumerate(desc['nodes']) if nd['op'] == 'Reg']
     # make sure at least one group is gated and holds a register; sometimes gate by a register of the domain itself
     if not desc['groups']:
         desc['groups'] = [{'parent': -1, 'enable': None}]
